@@ -41,10 +41,44 @@ def start_models():
     nocov = remove_covariate_effect(remove_covariate_effect(remove_covariate_effect(pheno, "CL", "WGT"), "VC", "WGT"), "VC", "APGR")
     _starts["pheno_nocov"] = nocov
     _starts["pheno_nocov_oral"] = set_first_order_absorption(nocov)
+    _starts["pred_nl"] = _pred_model()
     lin = load_example_model("pheno_linear")
     dfl = lin.dataset[lin.dataset["ID"] <= 3].reset_index(drop=True)
     _starts["pheno_linear"] = lin.replace(dataset=dfl)
     return _starts
+
+
+PRED_CODE = """$PROBLEM nonlinear PRED model without ODE system
+$INPUT ID TIME X DV
+$DATA data.csv IGNORE=@
+$PRED
+BASE = THETA(1)*EXP(ETA(1))
+SLOPE = THETA(2) + ETA(2)
+IPRED = BASE*EXP(-SLOPE*TIME) + X*ETA(1)**2
+W = SQRT(THETA(3)**2 + IPRED**2)
+Y = IPRED + W*EPS(1)
+$THETA (0,10) ; TVBASE
+$THETA (0,0.3) ; TVSLOPE
+$THETA (0,0.5) ; ADD
+$OMEGA 0.1
+$OMEGA 0.2
+$SIGMA 1
+$ESTIMATION METHOD=1 INTER
+"""
+
+
+def _pred_model():
+    import pandas as pd
+
+    from pharmpy.modeling import read_model_from_string
+
+    rows = []
+    for i in (1, 2, 3):
+        for t in (0.0, 1.0, 2.5, 4.0):
+            rows.append({"ID": i, "TIME": t, "X": 0.5 * i + 0.1 * t, "DV": 10.0 - t + 0.3 * i})
+    df = pd.DataFrame(rows)
+    m = read_model_from_string(PRED_CODE)
+    return m.replace(dataset=df)
 
 
 def _ops_structural():
